@@ -37,6 +37,7 @@ def extract_ast():
               os.path.join(REPO, "src/parsed_message.rs"), os.path.join(REPO, "src/swift_message.rs"),
               os.path.join(REPO, "src/headers/mod.rs")]
     files += sorted(glob.glob(os.path.join(REPO, "src/plugin/*.rs")))
+    files += [os.path.join(REPO, "src/parser/sequence_parser.rs")]      # last: its names never shadow the earlier files'
     os.makedirs(os.path.join(SCRATCH, "tmp"), exist_ok=True)
     out = os.path.join(SCRATCH, "tmp", "ast-%d.json" % os.getpid())
     subprocess.run([exe, out] + files, check=True)
